@@ -176,7 +176,8 @@ def scripts(ctx):
             api = rng.choice(APIS)
             plan = rng.choice(["fast", "fast", "fast2", "both", "noreply", "late", "held", "early"]) if held is None else rng.choice(["fast", "fast2", "both", "noreply"])
             if rng.random() < 0.2:
-                s.noise(rng.choice(["tell", "pipe", "pipename"]), rng.randint(1, 2), rng.randrange(2))
+                # never to a target whose handler is being held by the script (it could not handle the message)
+                s.noise(rng.choice(["tell", "pipe", "pipename"]), rng.randint(1, 2), 1 if held is not None else rng.randrange(2))
             target = 0 if held is None else 1
             A, R = "A%d" % i, "R%d" % i
             if plan in ("fast", "fast2"):
